@@ -1,8 +1,36 @@
-import EdpVerif.Drv.Common
+import EdpVerif.Drv.Etf
+import EdpVerif.Impl.DecodeCtx
+import EdpVerif.Spec.ModernShape
 namespace Edp.Drv
+open Edp
 
-/-- driver requests of property C13 (stub: nothing handled yet) -/
+def showCtx : BTop → String
+  | .ok t => "ok " ++ t.text
+  | .fail .err off p => "err " ++ toString off ++ " " ++ hexOf (displayPath p)
+  | .fail (.trailing n) off p => "trailing " ++ toString n ++ " " ++ toString off ++ " " ++ hexOf (displayPath p)
+  | .fail .panic _ _ => "panic"
+  | .panic => "panic"
+
+/-- driver requests of property C13 -/
 def handleC13 : List String → Option String
+  -- tie: the zero-copy decoder with its error context (offset, path)
+  | ["c13ctx", h, o] => some <| run do
+    let b ← getHex h
+    pure (showCtx (decodeBorrowedCtx (parseOracle o).ext b))
+  -- oracle (clause 2): an input laid out with modern tags only that the owned decoder accepts is accepted
+  | ["c13modern", h, owned, borrowed] => some <| run do
+    let b ← getHex h
+    if Spec.Modern.modernOnly b && owned == "ok" && borrowed != "ok" then pure "FAIL modern-tags-only input refused by the zero-copy decoder"
+    else pure "ok"
+  -- the guard is not vacuous: what the encoder writes for a term without node-local identifiers is modern-only
+  | ["c13shape", h] => some <| run do
+    let b ← getHex h
+    pure (if Spec.Modern.modernOnly b then "modern" else "other")
+  -- oracle (clause 3, what more is true): the reported offset is a position where a term starts
+  | ["c13start", h, kind, off] => some <| run do
+    let b ← getHex h
+    if Spec.Modern.isTermStart b off.toNat! (kind == "trailing") then pure "ok"
+    else pure ("FAIL offset " ++ off ++ " is not the start of a term")
   | _ => none
 
 end Edp.Drv
